@@ -5,7 +5,7 @@
    This file contains only statements closed by `exact`, their assumptions and non-vacuity examples.
    Generated once by tools/genprops.py from the proved lemmas (statements restated verbatim). *)
 From Coq Require Import List NArith ZArith Bool Lia Sorting.Sorted.
-From Viv Require Import Model.Sched Model.SchedC Proofs.Sched_defs Proofs.Sched_clock_proofs Proofs.Sched_once_proofs Proofs.SchedC_witness.
+From Viv Require Import Model.Sched Model.SchedC Proofs.Sched_defs Proofs.Sched_clock_proofs Proofs.Sched_once_proofs Proofs.SchedC_witness Model.Steps Proofs.StepsCond_proofs.
 Import ListNotations.
 Open Scope Z_scope.
 
@@ -137,6 +137,43 @@ Theorem C01_all_applied_at_return :
          (cnt_app p fin (log Sg U W s') + cnt_drop p fin (log Sg U W s'))%nat.
 Proof. exact @all_applied_at_return. Qed.
 Print Assumptions C01_all_applied_at_return.
+
+(* "a process whose update condition is false contributes nothing", for STEPS (Model/Steps.v with gated step functions): a phase in which every condition is false changes nothing *)
+Theorem C01_phase_all_false :
+  forall (Sg U : Type) (step_fn : node -> Sg -> U)
+           (apply1 : Sg -> list node -> node -> U -> Sg * list node) (cond : node -> Sg -> bool)
+           (nothing : U),
+         (forall (s : Sg) (live : list node) (n : node), apply1 s live n nothing = (s, live)) ->
+         forall (ls : list (list node)) (s : Sg) (live : list node) (log : list (sev Sg)),
+         (forall n : node, cond n s = false) ->
+         let
+         '(s', live', _) := run_layers Sg U (gated Sg U step_fn cond nothing) apply1 ls s live log in
+          s' = s /\ live' = live.
+Proof. exact @phase_all_false. Qed.
+Print Assumptions C01_phase_all_false.
+
+(* ... and a layer has exactly the effect of its steps whose condition holds *)
+Theorem C01_layer_only_true_steps_count :
+  forall (Sg U : Type) (step_fn : node -> Sg -> U)
+           (apply1 : Sg -> list node -> node -> U -> Sg * list node) (cond : node -> Sg -> bool)
+           (nothing : U),
+         (forall (s : Sg) (live : list node) (n : node), apply1 s live n nothing = (s, live)) ->
+         forall (l : list node) (rest : list (list node)) (s : Sg) (live : list node)
+           (log : list (sev Sg)),
+         fst (run_layers Sg U (gated Sg U step_fn cond nothing) apply1 (l :: rest) s live log) =
+         fst
+           (let running := filter (fun n : node => nmem n live) l in
+            let
+            '(s', live') :=
+             fold_left
+               (fun (acc : Sg * list node) (nu : node * U) =>
+                apply1 (fst acc) (snd acc) (fst nu) (snd nu))
+               (map (fun n : node => (n, step_fn n s)) (filter (fun n : node => cond n s) running))
+               (s, live) in
+             run_layers Sg U (gated Sg U step_fn cond nothing) apply1 rest s' live'
+               (log ++ map (fun n : node => ERun Sg n s) running)).
+Proof. exact @layer_only_true_steps_count. Qed.
+Print Assumptions C01_layer_only_true_steps_count.
 
 
 (* ---- non-vacuity: a reachable state of a concrete composite meets the hypotheses ---- *)
